@@ -68,14 +68,14 @@ fire('tok-whitespace-vt', ['C09', 'C20'], ['RX-1', 'RX-9'], 'tokenizer whitespac
      (TOK, "    Whitespace = r'[ \\f\\t]*'", "    Whitespace = r'[ \\f\\t\\v]*'"))
 fire('tok-always-break-literal-class', ['C09'], ['RX-9'], 'literal whitespace class in the always-break branch drifts',
      (TOK, "                    m = re.match(r'[ \\f\\t]*$', line[:start])", "                    m = re.match(r'[ \\t]*$', line[:start])"))
-fire('tok-number-underscore', ['C10'], ['RX-7'], 'decimal literals require an underscore between digits',
+fire('tok-number-underscore', ['C10', 'C12'], ['RX-7'], 'decimal literals require an underscore between digits',
      (TOK, "    Decnumber = r'(?:0(?:_?0)*|[1-9](?:_?[0-9])*)'", "    Decnumber = r'(?:0(?:_?0)*|[1-9](?:_[0-9])*)'"))
 fire('tok-operator-order', ['C10', 'C06', 'C12'], ['RX-8', 'GR-5'], '** is listed after the single-character class: **= splits',
      (TOK, '    Operator = group(r"\\*\\*=?", r">>=?", r"<<=?",\n                     r"//=?", r"->",\n                     r"[+\\-*/%&@`|^!=<>]=?",',
       '    Operator = group(r">>=?", r"<<=?",\n                     r"//=?", r"->",\n                     r"[+\\-*/%&@`|^!=<>]=?", r"\\*\\*=?",'))
 fire('tok-walrus-gate', ['C10', 'C12'], ['RX-8', 'GR-5g'], ':= becomes a token from 3.7 on',
      (TOK, "    if version_info >= (3, 8):\n        special_args.insert(0, \":=?\")", "    if version_info >= (3, 7):\n        special_args.insert(0, \":=?\")"))
-fire('tok-new-operator', ['C10'], ['RX-8'], 'a new operator $ is tokenized',
+fire('tok-new-operator', ['C10', 'C12'], ['RX-8'], 'a new operator $ is tokenized',
      (TOK, "    special_args = [r'\\.\\.\\.', r'\\r\\n?', r'\\n', r'[;.,@]']", "    special_args = [r'\\.\\.\\.', r'\\r\\n?', r'\\n', r'[;.,@$]']"))
 fire('tok-comment-stops-at-ff', ['C10'], ['RX-7'], 'tokenizer comment stops at a form feed',
      (TOK, "    Comment = r'#[^\\r\\n]*'", "    Comment = r'#[^\\r\\n\\f]*'"))
@@ -453,24 +453,27 @@ silent('s-tok9-closer-reversed', ['C02', 'C09'], 'the closer names its loop vari
 # GEN-5 EBNF -> NFA fragments
 GP = 'parso/pgen2/grammar_parser.py'
 fire('gen5-alt-joins-on-first-end', ['C08'], ['GEN-5'], 'alternatives are joined on the end state of the first alternative (rt4-C08)',
-     (GP, "            zz = NFAState(self._current_rule_name)\n", "            zz = z\n"))
+     (GP, "            zz = NFAState(self._current_rule_name)\n            while True:", "            zz = z\n            while True:"))
 fire('gen5-alt-shares-start', ['C08'], ['GEN-5'], 'alternatives start in the start state of the first alternative',
-     (GP, "            aa = NFAState(self._current_rule_name)\n", "            aa = a\n"))
+     (GP, "            aa = NFAState(self._current_rule_name)\n            zz = NFAState(self._current_rule_name)\n            while True:", "            aa = a\n            zz = NFAState(self._current_rule_name)\n            while True:"))
 fire('gen5-star-is-plus', ['C08'], ['GEN-5'], 'X* returns (a, z): at least one repetition is required',
-     (GP, "                return a, a\n", "                return a, z\n"))
-fire('gen5-optional-no-bypass', ['C08'], ['GEN-5'], '[X] lacks the epsilon arc around X',
-     (GP, "            a.add_arc(z)\n            return a, z", "            return a, z"))
+     (GP, "            else:\n                return self._make_skippable(a, z)\n", "            else:\n                return a, z\n"))
+fire('gen5-optional-no-bypass', ['C08'], ['GEN-5'], '[X] and X* lack the epsilon arc around X',
+     (GP, "        aa.add_arc(a)\n        aa.add_arc(zz)\n        z.add_arc(zz)\n", "        aa.add_arc(a)\n        z.add_arc(zz)\n"))
 fire('gen5-plus-wrong-direction', ['C08'], ['GEN-5'], 'the repetition arc of X+ / X* points forwards',
      (GP, "            z.add_arc(a)\n", "            a.add_arc(z)\n"))
 fire('gen5-items-chain-from-start', ['C08'], ['GEN-5'], 'the next item is chained to the start of the sequence instead of its end',
      (GP, "            b.add_arc(c)\n", "            a.add_arc(c)\n"))
 fire('gen5-group-optional', ['C08'], ['GEN-5'], '(X) is treated like [X]',
      (GP, "            self._expect(PythonTokenTypes.OP, ')')\n            return a, z", "            self._expect(PythonTokenTypes.OP, ')')\n            a.add_arc(z)\n            return a, z"))
+fire('gen5-skip-reuses-inner-states', ['C08'], ['GEN-5'], '[X] and X* reuse the start / end state of X for the skip arc (F18 reverted)',
+     (GP, "            return self._make_skippable(a, z)\n        else:", "            a.add_arc(z)\n            return a, z\n        else:"),
+     (GP, "            else:\n                return self._make_skippable(a, z)\n", "            else:\n                return a, a\n"))
 silent('s-gen5-test-order', ['C08'], 'the repetition operators are tested in another order',
-       (GP, "            if value == \"+\":\n                return a, z\n            else:\n                # The end state is the same as the beginning, nothing must\n                # change.\n                return a, a",
-        "            if value == \"*\":\n                return a, a\n            return a, z"))
-silent('s-gen5-star-fresh-states', ['C08'], 'X* built with two fresh states and four epsilon arcs (textbook Thompson)',
-       (GP, "                return a, a\n", "                s = NFAState(self._current_rule_name)\n                e = NFAState(self._current_rule_name)\n                s.add_arc(a)\n                s.add_arc(e)\n                z.add_arc(e)\n                return s, e\n"))
+       (GP, "            if value == \"+\":\n                return a, z\n            else:\n                return self._make_skippable(a, z)\n",
+        "            if value == \"*\":\n                return self._make_skippable(a, z)\n            return a, z\n"))
+silent('s-gen5-skip-inlined', ['C08'], 'the skip construction is written out at the optional site instead of calling the helper',
+       (GP, "            return self._make_skippable(a, z)\n        else:", "            aa = NFAState(self._current_rule_name)\n            zz = NFAState(self._current_rule_name)\n            aa.add_arc(a)\n            z.add_arc(zz)\n            aa.add_arc(zz)\n            return aa, zz\n        else:"))
 silent('s-gen5-alt-always-fresh', ['C08'], 'a single alternative also gets fresh start and end states',
        (GP, "        if self.value != \"|\":\n            return a, z\n        else:\n", "        if False:\n            return a, z\n        else:\n"))
 
@@ -515,6 +518,30 @@ fire('tree9-used-names-view', ['C19'], ['TREE-9'], 'the used-names memo stores a
      (PYTREE, "            self._used_names = UsedNamesMapping(dct)", "            self._used_names = dct.items()"))
 silent('s-tree9-used-names-dict', ['C19'], 'the used-names memo stores a plain dict copy',
        (PYTREE, "            self._used_names = UsedNamesMapping(dct)", "            self._used_names = UsedNamesMapping(dict(dct))"))
+
+# GEN-6 memoised closure
+fire('gen6-closure-memo-published-early', ['C08'], ['GEN-6'], 'epsilon closure memoised per NFA state, entry stored before the recursion returns (rt2-C08)',
+     (GEN, "    def addclosure(nfa_state, base_nfa_set):\n        assert isinstance(nfa_state, NFAState)\n        if nfa_state in base_nfa_set:\n            return\n        base_nfa_set.add(nfa_state)\n        for nfa_arc in nfa_state.arcs:\n            if nfa_arc.nonterminal_or_string is None:\n                addclosure(nfa_arc.next, base_nfa_set)\n",
+      "    closures = {}\n\n    def closure(nfa_state):\n        try:\n            return closures[nfa_state]\n        except KeyError:\n            nfa_set = closures[nfa_state] = {nfa_state}\n        for nfa_arc in nfa_state.arcs:\n            if nfa_arc.nonterminal_or_string is None:\n                nfa_set |= closure(nfa_arc.next)\n        return nfa_set\n\n    def addclosure(nfa_state, base_nfa_set):\n        base_nfa_set |= closure(nfa_state)\n"))
+silent('s-gen6-closure-memo-complete', ['C08'], 'epsilon closures memoised after they are complete (non-recursive wrapper around the visited-set walk)',
+       (GEN, "    base_nfa_set = set()\n    addclosure(start, base_nfa_set)\n", "    done = {}\n\n    def closure_of(nfa_state):\n        if nfa_state not in done:\n            result = set()\n            addclosure(nfa_state, result)\n            done[nfa_state] = result\n        return done[nfa_state]\n\n    base_nfa_set = set(closure_of(start))\n"))
+
+# EFF-6 memoised mutable results
+fire('eff6-split-lines-lru-cache', ['C15', 'C03', 'C18', 'C01'], ['EFF-6'], 'the keepends=False splitter is an lru_cache around re.compile(...).split (rt6-C15)',
+     (UTILS, "        return re.split(r'\\n|\\r\\n|\\r', string)", "        return _split_without_ends(string)"),
+     (UTILS, "def split_lines(string: str, keepends: bool = False)", "import functools\n_split_without_ends = functools.lru_cache(maxsize=512)(re.compile(r'\\n|\\r\\n|\\r').split)\n\n\ndef split_lines(string: str, keepends: bool = False)"))
+silent('s-eff6-version-cache', ['C15', 'C03', 'C18', 'C01'], 'version strings are parsed through an lru_cache (immutable result)',
+       (UTILS, "def parse_version_string(version: str = None)", "import functools\n\n\n@functools.lru_cache(maxsize=None)\ndef parse_version_string(version: str = None)"))
+
+# GR-8d early exits of Name.get_definition
+fire('gr8d-load-only-parents-with-atom', ['C14'], ['GR-8d'], 'a fast path returns None for names directly under "load-only" parents, atom among them (rt6-C14)',
+     (PYTREE, "        while node is not None:\n            if node.type == 'suite':\n                return None\n            if node.type in _GET_DEFINITION_TYPES:", "        if type_ in ('or_test', 'and_test', 'comparison', 'arith_expr', 'term', 'atom', 'arglist') and not include_setitem:\n            return None\n\n        while node is not None:\n            if node.type == 'suite':\n                return None\n            if node.type in _GET_DEFINITION_TYPES:"))
+silent('s-gr8d-load-only-parents', ['C14'], 'the same fast path without atom: operands of operators are never targets',
+       (PYTREE, "        while node is not None:\n            if node.type == 'suite':\n                return None\n            if node.type in _GET_DEFINITION_TYPES:", "        if type_ in ('or_test', 'and_test', 'comparison', 'arith_expr', 'term', 'arglist') and not include_setitem:\n            return None\n\n        while node is not None:\n            if node.type == 'suite':\n                return None\n            if node.type in _GET_DEFINITION_TYPES:"))
+
+# PAR-13 iterative engine
+fire('par13-pop-then-recurse', ['C06', 'C02'], ['PAR-13'], 'the reduce loop of _add_token becomes pop-and-call-yourself (rt6-C06)',
+     (PARSER, "                if stack[-1].dfa.is_final:\n                    self._pop()\n                else:", "                if stack[-1].dfa.is_final:\n                    self._pop()\n                    return self._add_token(token)\n                else:"))
 
 # TOK-3 typestate
 fire('tok3-comment-drops-prefix', ['C01', 'C09'], ['TOK-3'], 'a comment inside brackets replaces the pending prefix instead of extending it',
